@@ -26,7 +26,7 @@ def _ticks(x):
 def _pair(entry, kind, f0, f1, d, origin_of=None):
     """evaluate an entry point at both origins and abstract the difference"""
     rec = {"p": "C12", "entry": entry, "kind": kind, "dy": int(d[0]), "dx": int(d[1]), "raised0": False, "raised1": False,
-           "same_shape": True, "delta": [], "has_origin": False, "origin_delta": [0, 0]}
+           "same_shape": True, "delta": [], "has_origin": False, "origin_delta": [0, 0], "max_dev": 0}
     res = []
     for k, f in enumerate((f0, f1)):
         try:
@@ -52,6 +52,8 @@ def _pair(entry, kind, f0, f1, d, origin_of=None):
     if kind == "coord":
         dl = _ticks((v1 - v0).reshape(-1, 2))
         rec["delta"] = [[int(a), int(b)] for a, b in np.unique(dl, axis=0)] if dl.size else []
+        dev = np.abs((v1 - v0).reshape(-1, 2) / TAU - np.array([d[0], d[1]], dtype=float)) if dl.size else np.zeros(1)
+        rec["max_dev"] = int(min(10 ** 8, np.ceil(float(np.nanmax(dev))))) if np.all(np.isfinite(dev)) else 10 ** 8
     elif kind == "extent":
         dl = _ticks(v1 - v0).reshape(2, 2)  # (x0, x1, y0, y1)
         rec["delta"] = [[int(dl[0, 0]), int(dl[0, 1])], [int(dl[1, 0]), int(dl[1, 1])]]
@@ -207,7 +209,7 @@ def hilbert_records(seed):
     import autoarray as aa
 
     recs = []
-    for k, (d, o) in enumerate([((8, -4), (0, 0)), ((-6, 10), (2, -6))]):
+    for k, (d, o) in enumerate([((24, -20), (0, 0)), ((-22, 26), (18, -22)), ((40, 24), (24, -20)), ((-24, 20), (24, -20))]):
         o0 = (o[0] * TAU, o[1] * TAU)
         o1 = ((o[0] + d[0]) * TAU, (o[1] + d[1]) * TAU)
 
